@@ -109,23 +109,31 @@ func b2i(b bool) int {
 }
 
 // deepCopy copies maps and slices (scalars are immutable).
-func deepCopy(v interface{}) interface{} { return deepCopyN(v, 0) }
+func deepCopy(v interface{}) interface{} { return deepCopyN(v, 0, map[uintptr]bool{}) }
 
-func deepCopyN(v interface{}, depth int) interface{} {
+func deepCopyN(v interface{}, depth int, copyOnPath map[uintptr]bool) interface{} {
 	if depth > 300 {
 		return "?cyclic-or-too-deep"
 	}
 	switch x := v.(type) {
 	case map[string]interface{}:
+		if x != nil {
+			id := reflect.ValueOf(x).Pointer()
+			if copyOnPath[id] {
+				return "?cycle"
+			}
+			copyOnPath[id] = true
+			defer delete(copyOnPath, id)
+		}
 		c := make(map[string]interface{}, len(x))
 		for k, e := range x {
-			c[k] = deepCopyN(e, depth+1)
+			c[k] = deepCopyN(e, depth+1, copyOnPath)
 		}
 		return c
 	case []interface{}:
 		c := make([]interface{}, len(x))
 		for i, e := range x {
-			c[i] = deepCopyN(e, depth+1)
+			c[i] = deepCopyN(e, depth+1, copyOnPath)
 		}
 		return c
 	}
